@@ -315,6 +315,9 @@ class Interp:
     def call_native(self, fn, args, kwargs):
         if _hashable(fn) and fn in self.native_stubs:
             return self.native_stubs[fn](self, args, kwargs)
+        f0 = getattr(fn, "__func__", None)
+        if f0 is not None and _hashable(f0) and f0 in self.native_stubs:
+            return self.native_stubs[f0](self, [fn.__self__] + list(args), kwargs)
         b = BUILTIN_HANDLERS.get(fn) if _hashable(fn) else None
         if b is not None:
             return b(self, args, kwargs)
@@ -690,6 +693,11 @@ def _b_hasattr(it, args, kw):
         if f is not None:
             return f(obj, name)
         return ops.opaque_hasattr(obj, name)
+    if isinstance(name, Hole) and not isinstance(obj, SYMBOLIC):
+        if "value" in name.props:
+            return hasattr(obj, name.props["value"])
+        # symbolic attribute name on a real object: case split over its finite attribute set
+        return ops.bind_hole(name, sorted(set(dir(obj)))) is not None
     if isinstance(obj, SYMBOLIC) or is_symstr(name):
         raise Unsupported("hasattr on symbolic value")
     return hasattr(obj, name)
@@ -697,6 +705,8 @@ def _b_hasattr(it, args, kw):
 
 def _b_getattr(it, args, kw):
     obj, name = args[0], args[1]
+    if isinstance(name, Hole) and "value" in name.props:
+        name = name.props["value"]
     if is_symstr(name):
         raise Unsupported("getattr with symbolic name")
     try:
@@ -709,6 +719,8 @@ def _b_getattr(it, args, kw):
 
 def _b_setattr(it, args, kw):
     obj, name, v = args
+    if isinstance(name, Hole) and "value" in name.props:
+        name = name.props["value"]
     if is_symstr(name):
         f = obj.props.get("setattr_sym") if isinstance(obj, Opaque) else None
         if f is None:
